@@ -535,9 +535,15 @@ example (c : E2ECfg) (es : List String) : KeysRespectEq c exOracles es := by
 example (c : E2ECfg) : keysRespectEqB c exOracles ["MIT", "0BSD"] = true := by
   simp [keysRespectEqB, exOracles]
 example (c : E2ECfg) (o : SpdxOracles) (p : DocParams) :
-    spdxE2E spdxTable c o false p [("l", .symlink)] = .document (docText p [] []) := by
+    spdxE2E spdxTable c o false p [("l", .symlink .dangling)] = .document (docText p [] []) := by
   simp [spdxE2E, spdxCmd, globalOf, hasDep5, subtree, elookup, tomlFiles, iterFiles, toNodes, ENode.toNode, walkList,
-    walkNode, spdxInputs, spdxFiles, spdxLics, filesOf, coveredFiles, licFilesOf, findLicenses, findLoop]
+    walkNode, spdxInputs, spdxFiles, spdxLics, filesOf, coveredFiles, licFilesOf, licPathsOf, findLicenses, findLoop]
+
+-- the text of a licence reached through symbolic links is the bytes of what the links resolve to
+example : licContent [("LICENSES", .dir [("MIT.txt", .symlink (.file [77])),
+      ("shared", .symlink (.dir [("Zlib.txt", .symlink (.file [90])), ("gone.txt", .symlink .dangling)]))])]
+    "LICENSES/shared/Zlib.txt".toList = [90] := by decide
+example : licContent [("LICENSES", .symlink (.dir [("MIT.txt", .file [77])]))] "LICENSES/MIT.txt".toList = [77] := by decide
 
 -- ... and the naming / well-formedness hypotheses of the bijection statements
 example : goodNames ["a b", "x.py"] := by
